@@ -964,7 +964,7 @@ def oracle(ctx, scale):
             n_sub = min(n_sub, 1)
         # relabelling checks (public reorder(), reorder_back=True): quick - on the first structure and on the one with
         # several blocks / interleaved orbits; thorough - on the first model of every structure
-        relabel = (i < len(S)) if ctx.tier == "thorough" else (i % 5 in (0, 4))
+        relabel = (i < len(S) and S[name]["heavy"] <= 2) if ctx.tier == "thorough" else (i % 5 in (0, 4))
         check_structure(ctx, name, S[name], sub, n_k=ctx.n(2, 3), max_g=ctx.n(6, 48), n_sub=n_sub,
                         tower=ctx.tier == "thorough", relabel=relabel)
         if ctx.failures and not ctx.searching:
@@ -975,7 +975,7 @@ def oracle(ctx, scale):
                 (ctx.tier == "quick" and i % 5 in (0, 3)):
             check_structure(ctx, name, S[name], rng.getrandbits(40), n_k=ctx.n(1, 2), max_g=ctx.n(6, 48),
                             n_sub=0 if (multiblock or ctx.tier == "quick") else 1, tower=False, route="symmetrize2",
-                            relabel=ctx.tier == "thorough",
+                            relabel=False,
                             include_TR=(i % 2 == 0))
         if ctx.failures and not ctx.searching:
             break
